@@ -8,6 +8,9 @@ Ground truth comes from this abstract tree, never from parsing the rendered text
 from __future__ import annotations
 
 # kind -> number of blocks (min, max)
+# header comments end in non-ASCII text: from there on byte offsets and character offsets differ (Latin-1 supplement, Thai, CJK, astral plane)
+NON_ASCII = " \u2014 g\u00e9n\u00e9r\u00e9 \u0e2a\u0e23\u0e49\u0e32\u0e07 \u751f\u6210 \U0001f600"
+
 COMMON = {"if": (1, 1), "ifelse": (2, 2), "for": (1, 1), "while": (1, 1)}
 EXTRA = {
     "py": {"with": (1, 1), "try": (2, 4), "elif": (2, 4), "match": (1, 3), "asyncfor": (1, 1), "asyncwith": (1, 1)},
@@ -335,7 +338,7 @@ def render(lang: str, funcs: list, indent: str = "    ", gap: int = 1, prefix: s
                             "kinds": sorted(kinds_used(f["block"]))}
 
     if lang == "py":
-        o.emit(0, '"""Generated module."""')
+        o.emit(0, '"""Generated module%s."""' % NON_ASCII)
         for f in others:
             for _ in range(gap):
                 o.emit(0, "")
@@ -356,7 +359,7 @@ def render(lang: str, funcs: list, indent: str = "    ", gap: int = 1, prefix: s
         ty = lang == "ts"
         params = "a: number, items: number[]" if ty else "a, items"
         ret = ": void" if ty else ""
-        o.emit(0, "// Generated module")
+        o.emit(0, "// Generated module" + NON_ASCII)
         for f in others:
             for _ in range(gap):
                 o.emit(0, "")
@@ -399,7 +402,7 @@ def render(lang: str, funcs: list, indent: str = "    ", gap: int = 1, prefix: s
                 o.emit(1, "}")
             o.emit(0, "}")
     elif lang == "rs":
-        o.emit(0, "// Generated module")
+        o.emit(0, "// Generated module" + NON_ASCII)
         for f in others:
             for _ in range(gap):
                 o.emit(0, "")
